@@ -11,7 +11,8 @@ Import ListNotations.
 (* patching a with diff(a, b) gives exactly b (strict JSON equality: bool/int/float distinct) *)
 Theorem generic_diff_patch_roundtrip : forall O n a b,
   opcodes_valid O -> 2 * depth a < n -> wfj a = true -> wfj b = true -> same_container a b ->
-  exists d, diff_default O generic_config n a b = Ok d /\ (forall m, depth a < m -> patch m a d = Ok b).
+  exists d, diff_default O generic_config n a b = Ok d /\ (forall m, depth a < m -> patch m a d = Ok b)
+            /\ (forall f, depth a < f -> wf_diff f a d = true).
 Proof. exact generic_roundtrip. Qed.
 Print Assumptions generic_diff_patch_roundtrip.
 
